@@ -57,6 +57,7 @@ type script struct {
 	alpn    []string // protocols the server supports (nil: no ALPN extension in its reply)
 	chunks  [][]byte // one conn.Write (= one TLS record = one client Read) each
 	holdMs  int      // keep the connection open and silent this long after the last write
+	preMs   int      // a slow server: wait this long after the request before the first write
 	abrupt  bool     // close the TCP connection without close_notify
 	dropPre bool     // close right after accept, before the handshake
 }
@@ -131,6 +132,9 @@ func (p *peer) handle(conn net.Conn, sc *script) {
 	n, _ := io.ReadFull(tc, req)
 	o.req = req[:n]
 	if n == 16 {
+		if sc.preMs > 0 {
+			time.Sleep(time.Duration(sc.preMs) * time.Millisecond)
+		}
 		for _, c := range sc.chunks {
 			if len(c) == 0 {
 				continue
@@ -290,6 +294,12 @@ func fFetch(t []string) string {
 	if v, ok := kv(t, "ctxms"); ok {
 		ctxMs = atoi(v)
 	}
+	if v, ok := kv(t, "pre"); ok {
+		if quicMode {
+			panic("bad-op") // slow servers are scripted over TLS only
+		}
+		sc.preMs = atoi(v)
+	}
 	// the TLS-level inputs of the model are derived from the script; check them
 	wantDial, wantProto := expectTLS(sc.alpn)
 	if sc.dropPre {
@@ -343,6 +353,11 @@ func fFetch(t []string) string {
 		p.setNext(nil)
 	}
 	lastExch = exch
+	if err != nil && exch && sc.preMs > 0 {
+		// the call gave up on a slow server whose complete answer has been written by now:
+		// let the late answer arrive before the state is read
+		time.Sleep(40 * time.Millisecond)
+	}
 	pool := hexList(fetcher.VerifC20Data().Cookie)
 	if err != nil {
 		cls := fetchErrClass(err)
